@@ -17,6 +17,8 @@ theorem stepParse_independent_of_state (σ : Int → Rng) (w : World) (t : ToolP
     (r₁ r₂ : Rng) : stepParse σ w t argv { rng := r₁ } = stepParse σ w t argv { rng := r₂ } := by
   unfold stepParse
   unfold seedOf at hs
+  split
+  · rfl
   cases hp : parseTop (argv.length + 1) (parseCommandLine argv).1 {} with
   | error e => rfl
   | ok top =>
@@ -83,6 +85,8 @@ theorem stepParse_sigma (σ₁ σ₂ : Int → Rng) (w : World) (t : ToolPhases)
     stepParse σ₁ w t argv st = stepParse σ₂ w t argv st := by
   unfold stepParse
   unfold seedOf at hs
+  split
+  · rfl
   cases hp : parseTop (argv.length + 1) (parseCommandLine argv).1 {} with
   | error e => rfl
   | ok top =>
@@ -96,6 +100,8 @@ theorem stepParse_sigma (σ₁ σ₂ : Int → Rng) (w : World) (t : ToolPhases)
 theorem stepParse_inv (σ : Int → Rng) (w : World) (t : ToolPhases) (argv : List String) (st st' : RState)
     (h : stepParse σ w t argv st = .ok st') : SeedInv argv st' := by
   unfold stepParse at h
+  split at h
+  · cases h
   cases hp : parseTop (argv.length + 1) (parseCommandLine argv).1 {} with
   | error e => simp [hp] at h
   | ok top =>
@@ -219,23 +225,23 @@ def witnessWorld : World :=
 /-- WITHOUT a seed the text does depend on the state of the generator: `seedOf argv = some s` is a necessary
 hypothesis of T-C07.3 -/
 theorem cliRun_unseeded_depends_on_state :
-    (cliRun (fun _ => []) witnessWorld ["cnfgen", "randkcnf", "1", "2", "1"]
-      [.f (.sample 2 1 [0]), .f (.choice 2 0)]).out ≠
-    (cliRun (fun _ => []) witnessWorld ["cnfgen", "randkcnf", "1", "2", "1"]
-      [.f (.sample 2 1 [1]), .f (.choice 2 0)]).out := by decide +kernel
+    (cliRun (fun _ => ⟨[], []⟩) witnessWorld ["cnfgen", "randkcnf", "1", "2", "1"]
+      ⟨[], [.f (.sample 2 1 [0]), .f (.choice 2 0)]⟩).out ≠
+    (cliRun (fun _ => ⟨[], []⟩) witnessWorld ["cnfgen", "randkcnf", "1", "2", "1"]
+      ⟨[], [.f (.sample 2 1 [1]), .f (.choice 2 0)]⟩).out := by decide +kernel
 
 /-- the answers of the seeded state do reach the text (the run is not constant in `σ`) -/
 theorem cliRun_seeded_state_matters :
-    (cliRun (fun _ => [.f (.sample 2 1 [0]), .f (.choice 2 0)]) witnessWorld ["cnfgen", "--seed", "7", "randkcnf", "1", "2", "1"] []).out ≠
-    (cliRun (fun _ => [.f (.sample 2 1 [1]), .f (.choice 2 0)]) witnessWorld ["cnfgen", "--seed", "7", "randkcnf", "1", "2", "1"] []).out := by
+    (cliRun (fun _ => ⟨[], [.f (.sample 2 1 [0]), .f (.choice 2 0)]⟩) witnessWorld ["cnfgen", "--seed", "7", "randkcnf", "1", "2", "1"] ⟨[], []⟩).out ≠
+    (cliRun (fun _ => ⟨[], [.f (.sample 2 1 [1]), .f (.choice 2 0)]⟩) witnessWorld ["cnfgen", "--seed", "7", "randkcnf", "1", "2", "1"] ⟨[], []⟩).out := by
   decide +kernel
 
 /-- recorded run of the real tool (`cnfgen --seed 0 randkcnf 2 3 2`, CPython 3.12 generator): the model, given the
 answers the generator gave after `random.seed(0)`, asks for exactly those six draws and writes the same text -/
 example :
-    cliRun (fun _ => [.f (.sample 3 2 [1, 2]), .f (.choice 2 0), .f (.choice 2 1), .f (.sample 3 2 [2, 1]),
-                      .f (.choice 2 1), .f (.choice 2 1)])
-      witnessWorld ["cnfgen", "--seed", "0", "randkcnf", "2", "3", "2"] [.g (.unit 5), .f (.choice 9 9)] =
+    cliRun (fun _ => ⟨[], [.f (.sample 3 2 [1, 2]), .f (.choice 2 0), .f (.choice 2 1), .f (.sample 3 2 [2, 1]),
+                          .f (.choice 2 1), .f (.choice 2 1)]⟩)
+      witnessWorld ["cnfgen", "--seed", "0", "randkcnf", "2", "3", "2"] ⟨[.g (.unit 5)], [.f (.choice 9 9)]⟩ =
     ⟨.text ("c description: Random 2-CNF over 3 variables and 2 clauses\nc generator: CNFgen (3e30473)\n" ++
             "c random seed: 0\nc command line: cnfgen --seed 0 randkcnf 2 3 2\nc\np cnf 3 2\n2 -3 0\n-2 -3 0\n"), 0, 6, []⟩ := by
   decide +kernel
@@ -243,16 +249,16 @@ example :
 /-- recorded run of `cnfgen -q --seed 7 kcolor 2 gnp 3 .5`: three `random()` calls of networkx while the command
 line is parsed (the graph argument), none afterwards; non-vacuity of T-C07.3 with a random graph argument -/
 example :
-    cliRun (fun _ => [.g (.unit 2916826238065975), .g (.unit 1358728566951068), .g (.unit 5863096500449791)])
-      witnessWorld ["cnfgen", "-q", "--seed", "7", "kcolor", "2", "gnp", "3", ".5"] [] =
+    cliRun (fun _ => ⟨[.g (.unit 2916826238065975), .g (.unit 1358728566951068), .g (.unit 5863096500449791)], []⟩)
+      witnessWorld ["cnfgen", "-q", "--seed", "7", "kcolor", "2", "gnp", "3", ".5"] ⟨[], []⟩ =
     ⟨.text "p cnf 6 10\n1 2 0\n3 4 0\n5 6 0\n-1 -2 0\n-3 -4 0\n-5 -6 0\n-1 -3 0\n-2 -4 0\n-1 -5 0\n-2 -6 0\n", 3, 0, []⟩ ∧
     seedOf ["cnfgen", "-q", "--seed", "7", "kcolor", "2", "gnp", "3", ".5"] = some 7 := by
   decide +kernel
 
 /-- recorded run of `pbgen -q --seed 3 kcolor 2 gnp 3 .5` (OPB rendering of the same family, same flow) -/
 example :
-    toolRun "pbgen" (fun _ => [.g (.unit 2143394811796802), .g (.unit 4901981072493965), .g (.unit 3332259900419439)])
-      witnessWorld ["pbgen", "-q", "--seed", "3", "kcolor", "2", "gnp", "3", ".5"] [.g (.unit 1)] =
+    toolRun "pbgen" (fun _ => ⟨[.g (.unit 2143394811796802), .g (.unit 4901981072493965), .g (.unit 3332259900419439)], []⟩)
+      witnessWorld ["pbgen", "-q", "--seed", "3", "kcolor", "2", "gnp", "3", ".5"] ⟨[.g (.unit 1)], []⟩ =
     ⟨.text ("* #variable= 6 #constraint= 10\n+1 x1 +1 x2 >= 1\n+1 x3 +1 x4 >= 1\n+1 x5 +1 x6 >= 1\n+1 ~x1 +1 ~x2 >= 1\n" ++
             "+1 ~x3 +1 ~x4 >= 1\n+1 ~x5 +1 ~x6 >= 1\n+1 ~x1 +1 ~x3 >= 1\n+1 ~x2 +1 ~x4 >= 1\n+1 ~x3 +1 ~x5 >= 1\n+1 ~x4 +1 ~x6 >= 1\n"),
      3, 0, []⟩ := by
